@@ -17,7 +17,7 @@ ASSUMPTIONS = [
 EXHAUSTIVE_SUBSPACES = [
     "all 33 825 Geohash strings of length <= 3 (alternating case)",
     "all 728 x 576 GARS 5-character codes over 3-digit bands {001..720, 000, 721, 722, 730, 799, 800, 900, 999} x all 24^2 letter pairs",
-    "thorough tier: all GARS 6-character codes (digits 0-9 in position 6) and 7-character codes (quadrant 1-4, keypad 0-9) under every valid 30' cell (12.7 M codes)",
+    "thorough tier: all GARS 6-character codes (digits 0-9 in position 6) and 7-character codes (quadrant 1-4, keypad 0-9) under every valid 30' cell (12.96 M strings)",
     "all 26^2 Georef two-letter strings, and all 26^2 degree-letter pairs under each of the 288 valid tiles (194 688 four-letter codes)",
     "all 26^2 OSGB two-letter strings and all 100 one-digit-pair codes under each of the 625 valid squares",
 ]
@@ -62,7 +62,7 @@ def extra(res, tier, seed, workdir):
     """libFuzzer target per scheme, clang 'fuzz' flavour (ASan+UBSan), fixed number of runs and fixed seed."""
     sys.path.insert(0, os.path.join(os.path.dirname(os.path.dirname(os.path.abspath(__file__))), "lib"))
     import vbuild, driver
-    runs = {"quick": 400000, "thorough": 6000000}[tier]
+    runs = {"quick": 250000, "thorough": 5000000}[tier]
     procs = {}
     t0 = time.time()
     for sc in SCHEMES:
